@@ -86,6 +86,14 @@ type Sim struct {
 	// Done, when set, is called after the request has been handled.
 	Done func(thread int, label string, class string)
 
+	// ObsNormalize, when set, canonicalises a response body before it is
+	// folded into the observation hash (drops timestamps of release records).
+	ObsNormalize func(class string, body []byte) []byte
+
+	// obs holds, per logical thread, a running hash of everything the thread
+	// has observed (call label, status code, response body).
+	obs map[int]uint64
+
 	// StorageResource is "secrets" or "configmaps" when release records live
 	// in the sim, "" for the memory driver.
 	StorageResource string
@@ -102,6 +110,7 @@ func (s *Sim) Clone() *Sim {
 		c.Objs[k] = v
 	}
 	c.StorageResource = s.StorageResource
+	c.ObsNormalize = s.ObsNormalize
 	return c
 }
 
@@ -116,6 +125,43 @@ func (s *Sim) BeginOp(f *Fault) {
 	s.Calls = nil
 	s.Log = nil
 }
+
+// Observe folds one observation into the thread's observation hash.
+func (s *Sim) Observe(thread int, label string, code int, body []byte) {
+	s.observe(thread, label, "", code, body)
+}
+
+func (s *Sim) observe(thread int, label, class string, code int, body []byte) {
+	if s.ObsNormalize != nil && class != "" {
+		body = s.ObsNormalize(class, body)
+	}
+	s.mu.Lock()
+	if s.obs == nil {
+		s.obs = map[int]uint64{}
+	}
+	h := s.obs[thread]
+	mix := func(b []byte) {
+		for _, c := range b {
+			h ^= uint64(c)
+			h *= 1099511628211
+		}
+	}
+	if h == 0 {
+		h = 14695981039346656037
+	}
+	mix([]byte(label))
+	mix([]byte{byte(code), byte(code >> 8), 0xff})
+	mix(body)
+	s.obs[thread] = h
+	s.mu.Unlock()
+}
+
+// ObsHash returns the observation hash of a thread.
+func (s *Sim) ObsHash(thread int) uint64 { s.mu.Lock(); defer s.mu.Unlock(); return s.obs[thread] }
+
+// ForceCrash makes every later call fail without effect (used to drain
+// abandoned executions).
+func (s *Sim) ForceCrash() { s.mu.Lock(); s.crashed = true; s.mu.Unlock() }
 
 // FaultHit reports whether the planned fault was reached.
 func (s *Sim) FaultHit() bool { s.mu.Lock(); defer s.mu.Unlock(); return s.hit }
@@ -267,6 +313,7 @@ func (t *transport) RoundTrip(req *http.Request) (*http.Response, error) {
 			r = resp(req, 200, []byte(`{"major":"1","minor":"20","gitVersion":"v1.20.0","platform":"sim/amd64"}`))
 		}
 		s.LogEntry(e)
+		s.Observe(t.thread, label, e.Code, nil)
 		if s.Done != nil {
 			s.Done(t.thread, label, "cluster")
 		}
@@ -317,6 +364,7 @@ func (t *transport) RoundTrip(req *http.Request) (*http.Response, error) {
 	}
 	e.Code = code
 	s.LogEntry(e)
+	s.observe(t.thread, label, class, code, out)
 	if s.Done != nil {
 		s.Done(t.thread, label, class)
 	}
